@@ -18,6 +18,15 @@ func VerifDir() string {
 	return "/verif"
 }
 
+// OutDir is where evidence and replay files are written: $VERIF_OUT_DIR if set (used by the self test, which runs the
+// checks on a patched tree and must not touch the committed evidence), else VerifDir()
+func OutDir() string {
+	if d := os.Getenv("VERIF_OUT_DIR"); d != "" {
+		return d
+	}
+	return VerifDir()
+}
+
 // Coverage is the coverage section of an evidence file
 type Coverage struct {
 	Evaluations        int            `json:"evaluations"`
@@ -47,7 +56,7 @@ type Evidence struct {
 
 // WriteEvidence writes /verif/evidence/<id>.json
 func WriteEvidence(e Evidence) error {
-	dir := filepath.Join(VerifDir(), "evidence")
+	dir := filepath.Join(OutDir(), "evidence")
 	if err := os.MkdirAll(dir, 0o755); err != nil {
 		return err
 	}
@@ -105,7 +114,7 @@ func MatchKnown(known []KnownFinding, prop, sig string) *KnownFinding {
 
 // WriteReplay writes a replay file and returns its path
 func WriteReplay(prop string, name string, content any) string {
-	dir := filepath.Join(VerifDir(), "replays")
+	dir := filepath.Join(OutDir(), "replays")
 	_ = os.MkdirAll(dir, 0o755)
 	name = strings.Map(func(r rune) rune {
 		if r == '/' || r == ' ' || r == ':' {
